@@ -335,3 +335,11 @@ def const_str(node: ast.AST) -> Optional[str]:
     if isinstance(node, ast.Constant) and isinstance(node.value, str):
         return node.value
     return None
+
+
+def full(node: ast.AST) -> str:
+    """Un-truncated normalised text of a node (for containment checks on whole functions)."""
+    try:
+        return " ".join(ast.unparse(node).split())
+    except Exception:  # pragma: no cover
+        return ast.dump(node)
